@@ -503,6 +503,188 @@ def run_reservoir(case):
     return {"list": out1, "iter": out2, "ref": ref, "steps": steps, "used": used}
 
 
+MODEL_FLT = [("shuffle.rng_in_filter", 1), ("shuffle.rng_from_self_seed", 1), ("shuffle.inplace", 1), ("shuffle.copies_input", 1),
+             ("reservoir.rng_in_filter", 1), ("reservoir.rng_from_self_seed", 1), ("reservoir.zero_const", 0), ("reservoir.zero_is_first", 1),
+             ("reservoir.none_inplace", 0), ("reservoir.fill_islice_count", 1), ("reservoir.short_is_lt", 1), ("reservoir.short_strict_empty", 1),
+             ("reservoir.short_else_inplace", 1)]
+
+
+def extract_filter_facts(repo):
+    """What `Model/C05.lean: fltOut/fltNums` assumes about pipes.filters.Shuffle.filter and Reservoir.filter, read with `ast`: the generator is
+    created inside `filter` from `self._seed`, Shuffle shuffles a copy in place, Reservoir's branch order and tests. Only recognised shapes are
+    read; anything else keeps the model's value and is listed."""
+    tree = ast.parse(open(os.path.join(repo, "coba", "pipes", "filters.py"), encoding="utf-8").read())
+    nums, missing = dict(MODEL_FLT), []
+
+    def flt_of(name):
+        cls = next(n for n in tree.body if isinstance(n, ast.ClassDef) and n.name == name)
+        return cls, next(n for n in cls.body if isinstance(n, ast.FunctionDef) and n.name == "filter")
+
+    def attempt(keys, fn):
+        try:
+            r = fn()
+            for k in keys:
+                nums[k] = r[k]
+        except Exception:
+            missing.extend(keys)
+
+    def inplace_of(call):
+        kw = {k.arg: k.value for k in call.keywords}
+        v = kw.get("inplace", call.args[1] if len(call.args) > 1 else ast.Constant(False))
+        if not isinstance(v, ast.Constant): raise ValueError("inplace")
+        return 1 if v.value else 0
+
+    def sdot(n):
+        try:
+            return dotted(n)
+        except Exception:
+            return None
+
+    def rng_calls(fn):
+        return [n for n in ast.walk(fn) if isinstance(n, ast.Call) and sdot(n.func) in ("CobaRandom", "coba.random.CobaRandom")]
+
+    def rng_facts(name, key):
+        cls, flt = flt_of(name)
+        inside = rng_calls(flt)
+        elsewhere = [c for f in cls.body if isinstance(f, ast.FunctionDef) and f.name != "filter" for c in rng_calls(f)]
+        if not inside and not elsewhere: raise ValueError("no generator")
+        out = {key + ".rng_in_filter": 1 if (len(inside) == 1 and not elsewhere) else 0}
+        c = (inside + elsewhere)[0]
+        arg = c.args[0] if c.args else next((k.value for k in c.keywords if k.arg == "seed"), None)
+        out[key + ".rng_from_self_seed"] = 1 if (arg is not None and dotted(arg) == "self._seed" and len(c.args) + len(c.keywords) == 1) else 0
+        return out
+
+    def shuffle_body():
+        cls, flt = flt_of("Shuffle")
+        calls = [n for n in ast.walk(flt) if isinstance(n, ast.Call) and isinstance(n.func, ast.Attribute) and n.func.attr == "shuffle"]
+        if len(calls) != 1: raise ValueError("shuffle")
+        arg = dotted(calls[0].args[0])
+        out = {"shuffle.inplace": inplace_of(calls[0])}
+        asg = [n for n in flt.body if isinstance(n, ast.Assign) and dotted(n.targets[0]) == arg]
+        if len(asg) != 1: raise ValueError("copy")
+        v = asg[0].value
+        is_copy = lambda e: (is_call(e, "list", 1)) or (isinstance(e, ast.Call) and isinstance(e.func, ast.Attribute) and e.func.attr == "copy" and not e.args)
+        if isinstance(v, ast.IfExp): out["shuffle.copies_input"] = 1 if (is_copy(v.body) and is_copy(v.orelse)) else 0
+        elif isinstance(v, ast.Call): out["shuffle.copies_input"] = 1 if is_copy(v) else 0
+        else: raise ValueError("copy")
+        return out
+
+    def reservoir_body():
+        cls, flt = flt_of("Reservoir")
+        top = next(n for n in flt.body if isinstance(n, ast.If))
+        t = top.test
+        if not (isinstance(t, ast.Compare) and dotted(t.left) == "self._count" and isinstance(t.ops[0], ast.Eq)): raise ValueError("zero")
+        out = {"reservoir.zero_const": const_int(t.comparators[0]), "reservoir.zero_is_first": 1}
+        ys = [n for n in ast.walk(ast.Module(body=top.body, type_ignores=[])) if isinstance(n, (ast.YieldFrom, ast.Yield))]
+        if not (len(ys) == 1 and isinstance(ys[0].value, (ast.List, ast.Tuple)) and not ys[0].value.elts): raise ValueError("zero body")
+        nxt = top.orelse[0]
+        t2 = nxt.test
+        if not (isinstance(nxt, ast.If) and isinstance(t2, ast.Compare) and dotted(t2.left) == "self._count" and isinstance(t2.ops[0], ast.Is)
+                and isinstance(t2.comparators[0], ast.Constant) and t2.comparators[0].value is None): raise ValueError("none")
+        calls = [n for n in ast.walk(ast.Module(body=nxt.body, type_ignores=[])) if isinstance(n, ast.Call) and isinstance(n.func, ast.Attribute) and n.func.attr == "shuffle"]
+        if len(calls) != 1: raise ValueError("none body")
+        out["reservoir.none_inplace"] = inplace_of(calls[0])
+        rest = nxt.orelse
+        fill = next(n for n in rest if isinstance(n, ast.Assign) and dotted(n.targets[0]) == "reservoir")
+        v = fill.value
+        out["reservoir.fill_islice_count"] = 1 if (is_call(v, "list", 1) and is_call(v.args[0], "islice", 2) and dotted(v.args[0].args[1]) == "self._count") else 0
+        short = next(n for n in rest if isinstance(n, ast.If))
+        t3 = short.test
+        if not (isinstance(t3, ast.Compare) and is_call(t3.left, "len", 1) and dotted(t3.left.args[0]) == "reservoir" and dotted(t3.comparators[0]) == "self._count"):
+            raise ValueError("short")
+        out["reservoir.short_is_lt"] = 1 if isinstance(t3.ops[0], ast.Lt) else 0
+        y = next(n for n in ast.walk(ast.Module(body=short.body, type_ignores=[])) if isinstance(n, ast.YieldFrom))
+        e = y.value
+        if not (isinstance(e, ast.IfExp) and dotted(e.test) == "self._strict"): raise ValueError("strict")
+        out["reservoir.short_strict_empty"] = 1 if (isinstance(e.body, (ast.List, ast.Tuple)) and not e.body.elts) else 0
+        if not (isinstance(e.orelse, ast.Call) and isinstance(e.orelse.func, ast.Attribute) and e.orelse.func.attr == "shuffle" and dotted(e.orelse.args[0]) == "reservoir"):
+            raise ValueError("short else")
+        out["reservoir.short_else_inplace"] = inplace_of(e.orelse)
+        return out
+
+    attempt(["shuffle.rng_in_filter", "shuffle.rng_from_self_seed"], lambda: rng_facts("Shuffle", "shuffle"))
+    attempt(["reservoir.rng_in_filter", "reservoir.rng_from_self_seed"], lambda: rng_facts("Reservoir", "reservoir"))
+    attempt(["shuffle.inplace", "shuffle.copies_input"], shuffle_body)
+    attempt(["reservoir.zero_const", "reservoir.zero_is_first", "reservoir.none_inplace", "reservoir.fill_islice_count", "reservoir.short_is_lt",
+             "reservoir.short_strict_empty", "reservoir.short_else_inplace"], reservoir_body)
+    return [(k, nums[k]) for k, _ in MODEL_FLT], missing
+
+
+def flt_path(ob, n):
+    if ob["kind"] == "shuffle": return "shuffle"
+    c = ob.get("count")
+    if c is None: return "reservoir-none"
+    if c == 0: return "reservoir-zero"
+    if n < c: return "reservoir-short-strict" if ob.get("strict") else "reservoir-short"
+    return "reservoir-exact" if n == c else "reservoir-walk"
+
+
+def make_filter(ob):
+    from coba.pipes import Shuffle, Reservoir
+    if ob["kind"] == "shuffle":
+        return Shuffle(mk_seed(ob["seed"]))
+    return Reservoir(ob.get("count"), strict=bool(ob.get("strict")), seed=mk_seed(ob["seed"]))
+
+
+def filter_reference(ob, n):
+    """the output the seed's stream determines, through CobaRandom's public methods only: (list, steps, triples used)"""
+    import coba.random as cr
+    path = flt_path(ob, n)
+    if path in ("reservoir-zero", "reservoir-short-strict"):
+        return [], 0, 0
+    rng = cr.CobaRandom(mk_seed(ob["seed"]))
+    if path in ("shuffle", "reservoir-none", "reservoir-short"):
+        return rng.shuffle(list(range(n))), 0, 0
+    perm = rng.shuffle(list(range(ob["count"])))
+
+    def stream():
+        while True:
+            yield rng.random(), rng.random(), rng.random()
+    return reservoir_reference(stream(), perm, n, ob["count"])
+
+
+def run_filters(case):
+    """a history over filter objects: open a `filter` call (input: a fresh list / a caller-owned list that is passed again and again / an
+    iterator / a tuple), read some or all of it, leave it, resume an earlier one, close one"""
+    from itertools import islice
+    c = case["filters"]
+    objs = [make_filter(ob) for ob in c["objs"]]
+    shared, gens, outs = {}, [], []
+    for h in c["hist"]:
+        if "resume" in h or "close" in h:
+            j = h.get("resume", h.get("close"))
+            g = gens[j] if j < len(gens) else None
+            if g is None:
+                outs.append({"skipped": True})
+            elif "close" in h:
+                try:
+                    g[0].close(); outs.append({"closed": True})
+                except BaseException as e:
+                    outs.append({"closed": False, "err": type(e).__name__})
+            else:
+                try:
+                    outs.append({"gen": j, "out": list(islice(g[0], h["take"])) if h.get("take") is not None else list(g[0])})
+                except BaseException as e:
+                    outs.append({"gen": j, "out": [], "err": type(e).__name__})
+            continue
+        n, kind = h["n"], h.get("input", "list")
+        if kind == "shared":
+            items = shared.setdefault(n, list(range(n)))
+        else:
+            items = {"list": list, "iter": iter, "tuple": tuple}[kind](range(n))
+        rec = {"gen": len(gens)}
+        try:
+            g = iter(objs[h["o"]].filter(items))
+            rec["out"] = list(islice(g, h["take"])) if h.get("take") is not None else list(g)
+        except BaseException as e:
+            g, rec["out"], rec["err"] = iter(()), [], type(e).__name__
+        if kind in ("list", "shared"):
+            rec["input_after"] = None if items == list(range(n)) else list(items)[:12]
+        gens.append((g, h["o"], n))
+        outs.append(rec)
+    return outs
+
+
 ERRS = {ValueError: "ValueError", IndexError: "IndexError", StopIteration: "StopIteration", ZeroDivisionError: "ZeroDivisionError",
         TypeError: "TypeError"}
 
@@ -868,6 +1050,22 @@ class C05(Property):
                  % (",\n   ".join("(%s, %d)" % (lstr(k), v) for k, v in rnums), ", ".join(lstr(k) for k in rmissing),
                     ",\n   ".join("(%s, %s)" % (lstr(k), lstr(v)) for k, v in gfacts), ", ".join(lstr(k) for k in gmissing)))
         self._write_generated(os.path.join(lean.LEAN_DIR, "CobaVerif", "Generated", "C05Reservoir.lean"), body3)
+        try:
+            fnums, fmissing = extract_filter_facts(os.environ.get("COBA_REPO", "/repo"))
+        except Exception as e:
+            fnums, fmissing = list(MODEL_FLT), ["*:" + type(e).__name__]
+        body4 = ("-- GENERATED by harness/props/c05.py from coba/pipes/filters.py (ast) on every run; do not edit.\n"
+                 "-- Places whose shape was not recognised keep the model's value and are listed in `fltNotExtracted`.\n"
+                 "namespace Coba.Generated.C05\n"
+                 "def fltNums : List (String × Int) :=\n  [%s]\n"
+                 "def fltNotExtracted : List String := [%s]\n"
+                 "end Coba.Generated.C05\n"
+                 % (",\n   ".join("(%s, %d)" % (lstr(k), v) for k, v in fnums), ", ".join(lstr(k) for k in fmissing)))
+        self._write_generated(os.path.join(lean.LEAN_DIR, "CobaVerif", "Generated", "C05Filters.lean"), body4)
+        fdiff = [(k, v, dict(MODEL_FLT)[k]) for k, v in fnums if dict(MODEL_FLT)[k] != v]
+        notes.append("Shuffle.filter / Reservoir.filter dispatch read with ast: %d of %d recognised%s%s" % (
+            len(fnums) - len(fmissing), len(fnums), ("; NOT recognised (model value kept): " + ", ".join(fmissing)) if fmissing else "",
+            ("; DIFFERENT from the model: " + ", ".join("%s=%r (model %r)" % d for d in fdiff)) if fdiff else ""))
         rdiff = [(k, v, dict(MODEL_RES)[k]) for k, v in rnums if dict(MODEL_RES)[k] != v]
         notes.append("Reservoir.filter literals read with ast: %d of %d recognised%s%s" % (
             len(rnums) - len(rmissing), len(rnums), ("; NOT recognised (model value kept): " + ", ".join(rmissing)) if rmissing else "",
@@ -1128,6 +1326,8 @@ class C05(Property):
         return self.gen_op(rng, i)
 
     def generate(self, rng, tier):
+        if rng.chance(0.05):
+            return self.gen_filters_case(rng)
         if rng.chance(0.04):
             return self.gen_reservoir_case(rng)
         if rng.chance(0.05):
@@ -1184,7 +1384,7 @@ class C05(Property):
 
     def corpus(self):
         cyc = [{"cycle": {"seed": sd, "steps": 1 << k}} for sd, k in ((0, 4), (1, 10), (7, 16), (482549499, 18), (123456789, 20))]
-        return cyc + self.corpus_histories() + self.corpus_phase5()
+        return cyc + self.corpus_histories() + self.corpus_phase5() + self.corpus_phase6()
 
     def corpus_histories(self):
         s0 = seed_for(1, 0)
@@ -1363,6 +1563,141 @@ class C05(Property):
         n = rng.choice([count, count + 1, count * 8, count * 100, count * 100, count * 1000, count * 1000, rng.randint(count, 40000)])
         return {"reservoir": {"seed": {"kind": "int", "v": rng.randint(0, 10 ** 6)} if rng.chance(0.8) else self.gen_seed(rng, boundary_ok=False), "count": count, "n": n}}
 
+    # ---- phase 6: histories over the filters that own a generator
+    def corpus_phase6(self):
+        S = lambda v: {"kind": "int", "v": v}
+        cs = []
+        sh = lambda sd: {"kind": "shuffle", "seed": sd}
+        rs = lambda sd, c, strict=False: {"kind": "reservoir", "seed": sd, "count": c, "strict": strict}
+        # read / abandon / read again / read a sibling / resume the abandoned one; the caller passes the SAME list every time
+        for sd in (S(0), S(1), S(7), {"kind": "bool", "v": True}, S(2 ** 30 + 1), S(2 ** 40 + 3)):
+            for n in (2, 5, 11, 64):
+                cs.append({"filters": {"objs": [sh(sd), sh(sd), sh(S(3))], "hist": [
+                    {"o": 0, "n": n, "input": "shared", "take": 1}, {"o": 0, "n": n, "input": "shared"}, {"o": 1, "n": n, "input": "shared", "take": 2},
+                    {"o": 2, "n": n, "input": "shared"}, {"resume": 0, "take": None}, {"o": 0, "n": n, "input": "shared"}, {"resume": 2, "take": None},
+                    {"o": 0, "n": n, "input": "iter"}, {"o": 1, "n": n, "input": "tuple"}, {"o": 0, "n": n, "input": "shared"}]}})
+        # every path of Reservoir for several kinds of seed (1, 1.0, True are the same stream; "1" and 2.5 are hashed); three reads each
+        seeds = (S(1), {"kind": "float", "v": "1.0"}, {"kind": "bool", "v": True}, {"kind": "str", "v": "1"}, {"kind": "float", "v": "2.5"}, S(7), S(0))
+        for sd in seeds:
+            for c, n in ((None, 6), (None, 1), (0, 5), (5, 3), (5, 4), (5, 5), (5, 6), (1, 1), (1, 2), (3, 40), (10, 300), (2, 0)):
+                objs = [rs(sd, c), rs(sd, c, True), rs(sd, c), sh(S(5))]
+                cs.append({"filters": {"objs": objs, "hist": [
+                    {"o": 0, "n": n, "input": "shared", "take": 1}, {"o": 1, "n": n, "input": "shared"}, {"o": 0, "n": n, "input": "shared"},
+                    {"o": 2, "n": n, "input": "iter", "take": 2}, {"o": 3, "n": max(n, 2), "input": "list"}, {"resume": 0, "take": None}, {"close": 3},
+                    {"o": 0, "n": n, "input": "shared"}, {"resume": 3, "take": None}, {"o": 1, "n": n, "input": "tuple"}, {"o": 2, "n": n, "input": "shared"}]}})
+        return cs
+
+    def gen_filters_case(self, rng):
+        sd = lambda: ({"kind": "int", "v": rng.choice([0, 1, 1, 2, 7, rng.randint(0, 10 ** 6)])} if rng.chance(0.7) else
+                      rng.choice([{"kind": "bool", "v": True}, {"kind": "float", "v": "1.0"}, {"kind": "str", "v": "1"}, {"kind": "float", "v": "2.5"}, {"kind": "str", "v": "abc"}]))
+        objs = []
+        for _ in range(rng.choice([1, 2, 2, 3])):
+            if rng.chance(0.35):
+                s_ = sd()
+                objs.append({"kind": "shuffle", "seed": s_ if s_["kind"] in ("int", "bool") else {"kind": "int", "v": 1}})
+            else:
+                objs.append({"kind": "reservoir", "seed": sd(), "count": rng.choice([None, 0, 1, 2, 3, 5, 5, 10, 10]), "strict": rng.chance(0.3)})
+        if rng.chance(0.5):
+            objs.append(dict(rng.choice(objs)))          # a sibling: same kind, same seed
+        hist, opens = [], 0
+        for _ in range(rng.choice([3, 5, 8, 12])):
+            r = rng.below(10)
+            if opens and r < 3:
+                hist.append({"resume": rng.below(opens), "take": rng.choice([None, 1, 2, 5])})
+            elif opens and r == 3:
+                hist.append({"close": rng.below(opens)})
+            else:
+                o = rng.below(len(objs))
+                c = objs[o].get("count") or 4
+                n = rng.choice([0, 1, 2, c - 1, c, c + 1, c * 3, c * 30, c * 30, rng.randint(0, 400)])
+                hist.append({"o": o, "n": max(n, 0), "input": rng.choice(["shared", "shared", "list", "iter", "tuple"]), "take": rng.choice([None, None, 0, 1, 2, 3])})
+                opens += 1
+        return {"filters": {"objs": objs, "hist": hist}}
+
+    def evaluate_filters(self, case, driver):
+        """Shuffle / Reservoir as CALLERS of CobaRandom(seed), under histories of filter calls. (B): the pieces read from one `filter` call,
+        joined, are a prefix of (all of, when read to the end) the output the stream of CobaRandom(seed) determines for that input — whatever
+        was read, abandoned, resumed or closed in between, on the same object or a sibling; a list the caller passed is left as it was.
+        (A): the same against the Lean model's `fltRun` (driver), for the walk path with Algorithm L on the model's triples."""
+        c = case["filters"]
+        objs, hist = c["objs"], c["hist"]
+        outs = run_filters(case)
+        fails, tags = [], []
+        opens = [h for h in hist if "o" in h]
+        got, done, closed, matched = {}, {}, set(), {}
+        gi = 0
+        for h, o in zip(hist, outs):
+            if o.get("skipped"):
+                continue
+            if "close" in h:
+                tags.append("hist:close")
+                if not o.get("closed"):
+                    fails.append(F("B", "closing an abandoned filter generator raised %s" % o.get("err"), "filter-close-raises"))
+                closed.add(h["close"])
+                continue
+            j = o["gen"]
+            if "o" in h:
+                ob = objs[h["o"]]
+                tags += ["flt:" + flt_path(ob, h["n"]), "input:" + h.get("input", "list"), "fseed:" + ob["seed"]["kind"]]
+                if h.get("take") is not None: tags.append("hist:abandon")
+                if any(x["o"] == h["o"] and x["n"] == h["n"] for x in opens[:gi]): tags.append("hist:read-again")
+                elif any(objs[x["o"]] == ob and x["n"] == h["n"] for x in opens[:gi]): tags.append("hist:read-sibling")
+                gi += 1
+                if o.get("input_after") is not None:
+                    fails.append(F("B", "%s.filter(lst) changed the caller's list: range(%d) became %s… (the next call with the same list gets other values)"
+                                   % (ob["kind"], h["n"], o["input_after"]), "filter-input-mutated:" + flt_path(ob, h["n"])))
+            else:
+                tags.append("hist:resume")
+            if o.get("err"):
+                fails.append(F("B", "reading filter call #%d raised %s" % (j, o["err"]), "filter-raises:" + o["err"]))
+            got.setdefault(j, []).extend(o["out"])
+            want = h.get("take")
+            if j not in closed and (want is None or len(o["out"]) < want):
+                done[j] = True
+        refs = {}
+        for j, h in enumerate(opens):
+            if j not in got:
+                continue
+            ob, n = objs[h["o"]], h["n"]
+            path = flt_path(ob, n)
+            key = (json.dumps(ob, sort_keys=True), n)
+            if key not in refs:
+                refs[key] = filter_reference(ob, n)
+            ref = refs[key][0]
+            g = got[j]
+            ok = (g == ref) if done.get(j) else (g == ref[:len(g)])
+            if not ok:
+                kind = "B" if path not in ("reservoir-zero", "reservoir-short-strict") else "A"
+                sig = {"shuffle": "shuffle-filter", "reservoir-walk": "reservoir", "reservoir-exact": "reservoir"}.get(path, path)
+                fails.append(F(kind, "filter call #%d: %s(%s).filter(range(%d)) [%s, input %s] gave %s%s, the stream of CobaRandom(seed) determines %s%s"
+                               % (j, ob["kind"], json.dumps({k: v for k, v in ob.items() if k != "kind"}), n, path, h.get("input", "list"), g[:12],
+                                  "" if done.get(j) else " (read so far)", ref[:12], "; an earlier identical call was right" if matched.get(key) else ""),
+                               ("caller-not-seed-stream:" + sig + (":later-call" if matched.get(key) else "")) if kind == "B" else "A:filter-empty-path"))
+            else:
+                matched[key] = True
+        model = None
+        if driver is not None and opens:
+            ans = driver.ask({"filters": {"objs": [dict(kind=ob["kind"], seed=seed_for_model(ob["seed"]), count=ob.get("count"), strict=bool(ob.get("strict"))) for ob in objs],
+                                          "calls": [[h["o"], h["n"]] for h in opens]}})
+            model = ans["outs"]
+            for j, (h, mo) in enumerate(zip(opens, model)):
+                if j not in got:
+                    continue
+                ob, n = objs[h["o"]], h["n"]
+                if "items" in mo:
+                    mfull = mo["items"]
+                else:
+                    used = refs[(json.dumps(ob, sort_keys=True), n)][2]
+                    w = driver.ask({"reservoir": {"seed": seed_for_model(ob["seed"]), "count": ob["count"], "batches": used // 20 + 1}})
+                    if w["perm"] != mo["perm"]:
+                        fails.append(F("A", "model: fltOut and reservoirWalk disagree on the shuffled reservoir", "A:filter-model-perm"))
+                    mfull = reservoir_reference(iter([(a / M, b / M, d / M) for a, b, d in w["triples"]]), mo["perm"], n, ob["count"])[0]
+                g = got[j]
+                if not ((g == mfull) if done.get(j) else (g == mfull[:len(g)])):
+                    fails.append(F("A", "filter call #%d %s over range(%d): implementation %s, model %s" % (j, json.dumps(ob), n, g[:12], mfull[:12]), "A:filter:" + flt_path(ob, n)))
+        nontrivial = any(len(g) >= 2 for g in got.values())
+        return {"fails": fails, "nontrivial": nontrivial, "tags": tags, "impl": outs, "model": model}
+
     def gen_inexact_case(self, rng):
         """pmfs with float sum != 1 through a caller, interleaved with a plain generator of the same seed"""
         pms = inexact_pmfs()
@@ -1404,6 +1739,8 @@ class C05(Property):
             return {"fails": fails, "nontrivial": True, "tags": tags, "impl": o, "model": None}
         if "reservoir" in case:
             return self.evaluate_reservoir(case, driver)
+        if "filters" in case:
+            return self.evaluate_filters(case, driver)
         impl = run_history(case)
         hist = case["hist"]
         n_values = 0
@@ -1737,6 +2074,14 @@ class C05(Property):
     def shrink(self, case):
         if "cycle" in case or "reservoir" in case:
             return
+        if "filters" in case:
+            hist = case["filters"]["hist"]
+            for k in range(len(hist) - 1, -1, -1):      # drop an entry nobody refers to later
+                opens = sum(1 for h in hist[:k] if "o" in h)
+                if "o" in hist[k] and any(h.get("resume", h.get("close", -1)) >= opens for h in hist[k + 1:]):
+                    continue
+                yield {"filters": dict(case["filters"], hist=hist[:k] + hist[k + 1:])}
+            return
         hist = case["hist"]
         for k in range(len(hist)):
             c = dict(case, hist=hist[:k] + hist[k + 1:])
@@ -1758,6 +2103,10 @@ class C05(Property):
             return ("import sys; sys.path[:0]=['/repo']\nfrom coba.random import CobaRandom\nr=CobaRandom(%d); a=[r.random() for _ in range(4)]\n"
                     "left=%d-4\nwhile left>0:\n    n=min(left,1<<20); r.randoms(n); left-=n\nb=[r.random() for _ in range(4)]\nprint(a==b, a, b)  # True: the stream repeats after %d draws\n"
                     % (case["cycle"]["seed"], case["cycle"]["steps"], case["cycle"]["steps"]))
+        if "filters" in case:
+            return ("import sys; sys.path[:0]=['/repo','/verif/harness']\nfrom props.c05 import run_filters, filter_reference\nimport json\n"
+                    "case = json.loads(%r)\nprint(run_filters(case))  # every generator's pieces, joined, must be a prefix of:\n"
+                    "print([filter_reference(case['filters']['objs'][h['o']], h['n'])[0] for h in case['filters']['hist'] if 'o' in h])\n" % json.dumps(case))
         if "reservoir" in case:
             return ("import sys; sys.path[:0]=['/repo','/verif/harness']\nfrom props.c05 import run_reservoir\nimport json\n"
                     "o = run_reservoir(json.loads(%r))\nprint(o['list'] == o['ref'], o['steps'], o['list'], o['ref'])  # False: not the sample the seed's stream determines\n" % json.dumps(case))
